@@ -123,7 +123,7 @@ def ident_site(repo: Repo) -> List[Ob]:
     obs: List[Ob] = []
     veq = value_eq_classes(repo)
     sites = 0
-    for fi in repo.all_functions():
+    for fi in repo.scan_functions():
         m = fi.module.name
         if m not in STATE_MODULES and not m.endswith("einsum_constructor"):
             continue
